@@ -7,7 +7,7 @@ use crate::stream::{ReadStream, WriteStream};
 
 /// Delay stream. Good for syncing up streams.
 #[derive(rustradio_macros::Block)]
-#[rustradio(crate)]
+#[rustradio(crate, noeof)]
 pub struct Delay<T: Copy> {
     delay: usize,
     current_delay: usize,
@@ -44,6 +44,18 @@ impl<T: Copy> Delay<T> {
             self.skip = (self.delay - delay) - cdskip;
         }
         self.delay = delay;
+    }
+}
+
+impl<T: Copy> crate::block::BlockEOF for Delay<T> {
+    fn eof(&mut self) -> bool {
+        // Nobody will ever read the output: nothing more to do.
+        if crate::stream::StreamWait::closed(&self.dst) {
+            return true;
+        }
+        // As long as part of the delay has not been written, there is still
+        // output to come, even if the input has ended.
+        self.current_delay == 0 && self.src.eof()
     }
 }
 
